@@ -41,7 +41,7 @@ FD_DECLARED = {}
 def cases(tier, seed):
     rng = np.random.default_rng(1000 + seed)
     out = []
-    nmodel = 36 if tier == "quick" else 300
+    nmodel = 30 if tier == "quick" else 300
     for k in range(nmodel):
         kind = ["geom", "aero", "aero", "struct", "as", "as"][k % 6]
         out.append(dict(kind="model", model=kind, seed=int(rng.integers(1 << 30)), corner=int(k // 6) % 4, jitter=1 if tier == "quick" else 2, idx=k, big=bool(tier == "thorough" and k % 3 == 0),
@@ -183,34 +183,64 @@ def jittered(name, inputs, rng):
     return out
 
 
+SCALAR_RANGE = {"Mach_number": (0.3, 0.93), "taper": (0.3, 1.2)}
+
+
+def far_variant(name, inputs, rng, end=None):
+    """a clearly different admissible point: scalar inputs moved by up to -40 % / +10 % (or to one end of their admissible range),
+    arrays jittered"""
+    out = jittered(name, inputs, rng)
+    for k, v in inputs.items():
+        if v.size == 1:
+            nv = v * rng.uniform(0.6, 1.1)
+            lo, hi = SCALAR_RANGE.get(k, (-np.inf, np.inf))
+            if end is not None and k in SCALAR_RANGE:
+                nv = np.full(v.shape, hi if end == "hi" else lo)
+            out[k] = np.clip(nv, lo, hi)
+    return out
+
+
 def replay_events(o, evs, jitter, rng, tags):
     for ev in evs:
         name = ev["cls"].__name__
         fam = "c01/" + name
         skip = skip_masks(ev)
-        variants = [ev["inputs"]]
+        # the same component instance is linearised at several points in a row (far point, jittered points, then the captured
+        # point): a sub-Jacobian left over from an earlier point ("stale non-zero") shows up at the later ones
+        variants = []
         if name not in ("EvalVelMtx",):
+            if any(k in SCALAR_RANGE for k in ev["inputs"]):
+                # both ends of the admissible range of the switching inputs (e.g. above, then below the wave-drag onset)
+                variants.append(("far_hi", far_variant(name, ev["inputs"], rng, end="hi")))
+                variants.append(("far_lo", far_variant(name, ev["inputs"], rng, end="lo")))
+            variants.append(("far", far_variant(name, ev["inputs"], rng)))
             for _ in range(jitter):
-                variants.append(jittered(name, ev["inputs"], rng))
-        for vi, inputs in enumerate(variants):
+                variants.append(("jittered", jittered(name, ev["inputs"], rng)))
+        variants.append(("captured", ev["inputs"]))
+        q = None
+        for kind, inputs in variants:
             if name == "WaveDrag" and ev["opts"]["surface"].get("with_wave") and near_wave_onset(inputs):
                 o.count("skipped_wave_onset")
                 continue
             try:
-                q = diff.replay_problem(ev["cls"], ev["opts"], inputs, ev["outputs"])
-            except Exception as e:  # noqa: BLE001
-                if vi == 0:
+                if q is None:
+                    q = diff.replay_problem(ev["cls"], ev["opts"], inputs, ev["outputs"])
+                else:
+                    diff.reset_inputs(q, inputs, ev["outputs"])
+            except Exception:  # noqa: BLE001
+                if kind == "captured":
                     raise
-                continue  # a jittered input the component legitimately cannot take (e.g. singular matrix)
+                q = None
+                continue  # a perturbed input the component legitimately cannot take (e.g. singular matrix)
             c = q.model.c
             rtol = 1e-6
             if "fd" in getattr(c, "_approx_schemes", {}):
                 rtol = 1e-4  # the component itself declares forward-difference partials (step 1e-6)
             rep = diff.reported_jacobian(q)
             nin = sum(v.size for v in inputs.values())
-            fd = diff.fd_jacobian(q, skip=skip if vi == 0 else None, max_cols=None if nin <= 1200 else 400, rng=rng)
+            fd = diff.fd_jacobian(q, skip=skip if kind == "captured" else None, max_cols=None if nin <= 1200 else 400, rng=rng)
             xs = {k: float(np.abs(v).max()) if np.abs(v).max() > 0 else 1.0 for k, v in inputs.items()}
-            diff.compare(o, fam, rep, fd, name, tags=tags + (["captured"] if vi == 0 else ["jittered"]) + opt_tags(ev), rtol=rtol, xscale=xs,
+            diff.compare(o, fam, rep, fd, name, tags=tags + [kind] + opt_tags(ev), rtol=rtol, xscale=xs,
                          yscale={k: float(np.abs(np.asarray(c._outputs[k])).max()) for k in c._outputs})
             o.count("replays")
             o.count("jacobian_entries_decided", int(sum((np.isfinite(e[0]) & np.isfinite(e[1])).sum() for e in fd.values())))
